@@ -10,7 +10,9 @@ SEEDS="$@"; [ -z "$SEEDS" ] && SEEDS=$(ls -d /verif/seeded/*/)
 for d in $SEEDS; do
   d=${d%/}; name=$(basename $d)
   cd $WT && git checkout -q -- . && git clean -qfd examples tests 2>/dev/null
-  if grep -q "fn main" $d/demo.rs; then mkdir -p examples; cp $d/demo.rs examples/demo_seed.rs; RUN="cargo run -q --offline --example demo_seed"; else cp $d/demo.rs tests/demo_seed.rs; RUN="cargo test -q --offline --test demo_seed"; fi
+  FEAT=$(python3 -c "import json,sys; f=json.load(open('$d/meta.json')).get('features',[]); print(','.join(f) if isinstance(f,list) else str(f))" 2>/dev/null)
+  FARG=""; [ -n "$FEAT" ] && FARG="--features $FEAT"
+  if grep -q "fn main" $d/demo.rs; then mkdir -p examples; cp $d/demo.rs examples/demo_seed.rs; RUN="cargo run -q --offline $FARG --example demo_seed"; else cp $d/demo.rs tests/demo_seed.rs; RUN="cargo test -q --offline --test demo_seed"; fi
   $RUN > /tmp/verify_demo.log 2>&1; base=$?
   git apply $d/patch.diff || { echo "$name: PATCH-FAILS" >> $OUT; continue; }
   $RUN > /tmp/verify_demo.log 2>&1; with=$?
